@@ -595,7 +595,7 @@ func propC06(t *rapid.T, r *vstat.Run) {
 				g = gram.GenGrammar(t, gram.GenOpts{MaxProds: 4, MaxDepth: 3, TrapPercent: 15, PosStyles: true, MixedUnion: true, Profiles: true, Parseables: true, BadElide: true, NameElided: rapid.IntRange(0, 7).Draw(t, "named") == 0})
 			}
 			b, msg := buildGrammar(g)
-			if msg != "" && len(g.ExtraElide) > 0 {
+			if msg != "" && len(g.ExtraElide) > 0 && g.ExtraElide[0] != "EOF" {
 				r.Count("misspelt_option_rejected_by_Build")
 				return
 			}
